@@ -32,15 +32,27 @@ DTYPES = ['f8', 'f4', 'i4', 'i2']
 # generation
 # ----------------------------------------------------------------------------------------
 
+_STYLE = {'digits': 9, 'near': False}
+
+
+def _r(x):
+    """Round to the current coordinate style (None = keep the full double mantissa)."""
+    return x if _STYLE['digits'] is None else round(x, _STYLE['digits'])
+
+
 def _coord(rng, lo, hi):
-    """A non-round number with >= 9 significant digits."""
-    return round(rng.uniform(lo, hi), 9)
+    """A non-round number with >= 9 significant digits (or a full mantissa)."""
+    if _STYLE['near']:
+        # around (0, 0): magnitudes below 10, where fixed-decimal rounding bites hardest
+        span = hi - lo
+        lo, hi = -0.35 * min(span, 12), 0.35 * min(span, 12)
+    return _r(rng.uniform(lo, hi))
 
 
 def _axis(rng, n, lo, hi, descending):
-    steps = [round(rng.uniform(0.3, 1.7), 9) for _ in range(n)]
+    steps = [_r(rng.uniform(0.3, 1.7)) for _ in range(n)]
     start = _coord(rng, lo, hi)
-    vals = [round(start + sum(steps[:i]), 9) for i in range(n)]
+    vals = [_r(start + sum(steps[:i])) for i in range(n)]
     if descending:
         vals = vals[::-1]
     return vals
@@ -50,10 +62,10 @@ def _axis_bounds(rng, vals):
     """Explicit, contiguous bounds that differ from the midpoint rule at the ends."""
     n = len(vals)
     sign = 1 if n == 1 or vals[-1] > vals[0] else -1
-    mids = [round((vals[i] + vals[i + 1]) / 2 + sign * round(rng.uniform(-0.05, 0.05), 9), 9)
+    mids = [_r((vals[i] + vals[i + 1]) / 2 + sign * _r(rng.uniform(-0.05, 0.05)))
             for i in range(n - 1)]
-    first = round(vals[0] - sign * round(rng.uniform(0.1, 0.4), 9), 9)
-    last = round(vals[-1] + sign * round(rng.uniform(0.1, 0.4), 9), 9)
+    first = _r(vals[0] - sign * _r(rng.uniform(0.1, 0.4)))
+    last = _r(vals[-1] + sign * _r(rng.uniform(0.1, 0.4)))
     edges = [first] + mids + [last]
     return [[edges[i], edges[i + 1]] for i in range(n)]
 
@@ -72,7 +84,7 @@ def _node_grid(rng, ny, nx):
             v = j * dy + rng.uniform(-0.12, 0.12)
             x = x0 + u * math.cos(rot) - v * math.sin(rot)
             y = y0 + u * math.sin(rot) + v * math.cos(rot)
-            row.append([round(x, 9), round(y, 9)])
+            row.append([_r(x), _r(y)])
         grid.append(row)
     return grid
 
@@ -206,7 +218,10 @@ def gen_world(rng, *, convs=CONVS, max_n=5, max_faces=10, max_vars=5, allow_hole
               with_time=None, allow_perm=True, allow_coords_as_vars=True,
               time_units_pool=None, materialise=None, min_vars=1):
     conv = rng.choice(list(convs))
-    spec = {'conv': conv, 'attrs': {'title': 'generated world'}}
+    style = rng.choice(['r9_far', 'r9_far', 'full_far', 'full_near'])
+    _STYLE['digits'] = 9 if style == 'r9_far' else None
+    _STYLE['near'] = style == 'full_near'
+    spec = {'conv': conv, 'attrs': {'title': 'generated world'}, 'coord_style': style}
     extra_pool = []
     if with_time is None:
         with_time = rng.random() < 0.7
@@ -264,6 +279,8 @@ def gen_world(rng, *, convs=CONVS, max_n=5, max_faces=10, max_vars=5, allow_hole
             'holes': holes, 'ydim': ydim, 'xdim': xdim, 'yvar': yvar, 'xvar': xvar,
             'coords_as_vars': allow_coords_as_vars and rng.random() < 0.3,
         })
+        # bounds variables held as xarray coordinates (set_coords / a CF 'coordinates' attribute) instead of data variables
+        spec['bounds_as_coords'] = bool(bounds and not spec['coords_as_vars'] and rng.random() < 0.3)
         kinds = ['face']
     elif conv == 'shoc_standard':
         ny, nx = rng.randint(1, max_n), rng.randint(1, max_n)
@@ -701,7 +718,8 @@ class World:
             if s['bounds']:
                 bname = var + '_bnds'
                 attrs['bounds'] = bname
-                data_vars[bname] = xarray.DataArray(bnds[..., comp].copy(), dims=dims + ['nv'])
+                btarget = coords if s.get('bounds_as_coords') else data_vars
+                btarget[bname] = xarray.Variable(dims + ['nv'], bnds[..., comp].copy())
             target[var] = xarray.Variable(dims, centre[..., comp].copy(), attrs=attrs)
 
     def _build_shoc_standard(self, data_vars, coords):
@@ -888,6 +906,10 @@ def shrink_world_candidates(spec):
     if spec.get('coords_as_vars'):
         s = copy.deepcopy(spec)
         s['coords_as_vars'] = False
+        yield s
+    if spec.get('bounds_as_coords'):
+        s = copy.deepcopy(spec)
+        s['bounds_as_coords'] = False
         yield s
     if spec.get('holes'):
         s = copy.deepcopy(spec)
